@@ -56,6 +56,7 @@ type summary struct {
 	ChanOps         int      `json:"chan_ops"`
 	Selects         int      `json:"selects"`
 	Sleeps          int      `json:"sleeps"`
+	ProcQueries     int      `json:"gomaxprocs_queries"`
 	SyncMapRanges   int      `json:"syncmap_ranges"`
 	UncontrolledMap []string `json:"uncontrolled_map_ranges"`
 	Unmodelled      []string `json:"unmodelled_sync"`
@@ -779,6 +780,12 @@ func (c *fileCtx) call(n *ast.CallExpr) {
 				if sel.Sel.Name == "Gosched" && *flagChans {
 					c.edits = append(c.edits, edit{c.off(sel.Pos()), c.off(sel.End()), "__simrt.Gosched"})
 					c.runtimeIdent = id.Name
+				}
+				if (sel.Sel.Name == "GOMAXPROCS" || sel.Sel.Name == "NumCPU") && *flagClock {
+					// the number of processors is an input of the run, like the clock
+					c.edits = append(c.edits, edit{c.off(sel.Pos()), c.off(sel.End()), "__simrt." + sel.Sel.Name})
+					c.runtimeIdent = id.Name
+					sum.ProcQueries++
 				}
 				return
 			case "context":
